@@ -58,7 +58,9 @@ def check_matches(stats: Stats, text, doc, origin, ast=None):
         stats.excluded["query-raised:" + type(e).__name__] += 1
         return []
     seen = {}
-    for m in ms[:40]:
+    # long match lists: the first 40, the last 25, and every 37th in between
+    picked = ms if len(ms) <= 65 else ms[:40] + ms[40:-25:37] + ms[-25:]
+    for m in picked:
         stats.ev()
         parts = tuple(m.parts)
         # 0. parts walk strictly to the matched object
@@ -139,7 +141,7 @@ def check_matches(stats: Stats, text, doc, origin, ast=None):
             stats.nt(canon(doc), repr(parts), text)
     # different parts must have different paths
     byparts = {}
-    for m in ms[:40]:
+    for m in ms[:3000]:
         byparts.setdefault(tuple(m.parts), set()).add(m.path)
     if any(len(v) > 1 for v in byparts.values()):
         stats.fail("pairs:same-node-different-paths", case, "one node reported under several paths: %s" % short(byparts, 200))
@@ -208,6 +210,21 @@ def t_names():
     return stats
 
 
+def t_long():
+    """locations in large documents: arrays of 1000 elements, objects of 300 members, depth 99"""
+    from ..gen import longq
+    stats = Stats()
+    n = 0
+    for doc in longq.long_docs():
+        for q in ("$[*]", "$..*", "$.a[*]", "$.b[*].a", "$[::-1]", "$[-70:]", "$[63:67]", "$..[64,65,-1]", "$[?@ > 60]", "$.b[?@.b == 2]", "$..a", "$..[?@.a]"):
+            ms = check_matches(stats, q, doc, "long")
+            n += len(ms)
+            if len(ms) > 64:
+                stats.nt("long", q, n)
+    stats.subspaces.append({"name": "12 queries x 6 large or deep documents; locations of the first 40, last 25 and every 37th match", "size": n, "exhaustive": True})
+    return stats
+
+
 def t_digits():
     """indices and slice bounds spelled with non-ASCII decimal digits, on objects that have members named by each spelling"""
     from .c10 import DIGIT_SHAPES, DIGIT_SPELLINGS, digit_doc
@@ -225,7 +242,7 @@ def t_digits():
 
 
 def tasks(tier, seed):
-    ts = [{"name": "names", "fn": "t_names"}, {"name": "digits", "fn": "t_digits"}]
+    ts = [{"name": "names", "fn": "t_names"}, {"name": "digits", "fn": "t_digits"}, {"name": "long", "fn": "t_long"}]
     n = 1800 if tier == "quick" else 40000
     for k in range(16):
         ts.append({"name": "random-%d" % k, "fn": "t_random", "kw": {"seed": mix(seed, ID, k), "n": n}})
